@@ -132,7 +132,8 @@ def emit_proofs(handlers, specs):
         for orig, repl in pairs:
             attrs.append(f"#[kanitool::stub({orig}, {repl})]")
         out.append("\n".join(attrs))
-        out.append(f"pub fn {s['name']}() {{ let mut s = crate::harness::src::KSrc; {s['body']}(&mut s); }}\n")
+        call = s["body"].replace("$S", "&mut s")
+        out.append(f"pub fn {s['name']}() {{ let mut s = crate::harness::src::KSrc; {call}; }}\n")
     return "\n".join(out)
 
 
@@ -161,7 +162,8 @@ def _ensure_symlink(target, link):
 def emit_registry(specs):
     lines = ["pub fn run_body(name: &str, s: &mut crate::harness::src::RSrc) -> bool {", "    match name {"]
     for sp in specs:
-        lines.append(f'        "{sp["name"]}" => {{ {sp["body"]}(s); true }}')
+        call = sp["body"].replace("$S", "&mut *s")
+        lines.append(f'        "{sp["name"]}" => {{ {call}; true }}')
     lines.append("        _ => false,")
     lines.append("    }")
     lines.append("}")
@@ -203,7 +205,7 @@ def generate(specs, repo=REPO):
     listed_open = {f["id"] for f in load_known_findings() if f.get("status") == "open"}
     g = ["// GENERATED by vlib/gen.py from /repo's working tree -- do not edit",
          "#![allow(non_upper_case_globals)]",
-         "use crate::cpu::Cpu;", "use anyhow::Result;", ""]
+         "use crate::cpu::Cpu;", "use crate::harness::*;", "use anyhow::Result;", ""]
     g.append("pub mod kfc {")
     for k in scan_kf_ids():
         g.append(f"    pub const {k}: bool = {'true' if k in listed_open else 'false'};")
